@@ -137,6 +137,13 @@ func Forget(ids ...string) {
 	regMu.Lock()
 	defer regMu.Unlock()
 	for _, id := range ids {
+		// the server instance (and through its bus the channel) may stay referenced by
+		// goroutines Run leaves behind: let go of what the channel recorded
+		if c := captures[id]; c != nil {
+			c.mu.Lock()
+			c.events = nil
+			c.mu.Unlock()
+		}
 		delete(captures, id)
 		delete(stubs, id)
 		delete(listeners, id)
